@@ -24,15 +24,36 @@ def is_record(cls_name: str) -> bool:
     return "Record" in cls_name
 
 
+LIVE_SCRATCH = set()  # scratch directories of this process that still exist (removed by the watchdog on a hang)
+
+
+def remove_live_scratch():
+    for d in list(LIVE_SCRATCH):
+        shutil.rmtree(d, ignore_errors=True)
+        LIVE_SCRATCH.discard(d)
+
+
 class Scratch:
     """Scratch directory that is removed on exit (also when the body raises)."""
 
+    def __init__(self, kill_children=False):
+        # kill_children: SIGKILL every descendant process first, so that nothing re-creates files while the
+        # directory is being removed (used by the cases that start processes)
+        self.kill_children = kill_children
+
     def __enter__(self):
         self.d = tempfile.mkdtemp(prefix="l2b_")
+        LIVE_SCRATCH.add(self.d)
         return self
 
     def __exit__(self, *a):
+        if self.kill_children:
+            import _pool_util
+            _pool_util.kill_descendants()
         shutil.rmtree(self.d, ignore_errors=True)
+        if os.path.exists(self.d):
+            shutil.rmtree(self.d, ignore_errors=True)
+        LIVE_SCRATCH.discard(self.d)
 
     def path(self, name):
         return os.path.join(self.d, name)
